@@ -195,6 +195,7 @@ def run(ctx):
                lay['first_field'], term_str(hdr_len) if hdr_len else None))
     binary_mode(ctx, fi, data, lay)
     line_mode(ctx, fi, data)
+    hook_before_flush(ctx)
     # "with identical content, whatever mix of byte orders the senders
     # used": a framed message is handed to parseMessage, which must take
     # the byte order of header AND body from that message's own first byte
@@ -228,6 +229,42 @@ def run(ctx):
     ctx.floor('C04.D4', 1)
     ctx.floor('C04.D5', 2)
     ctx.floor('C04.D6', 3)
+
+
+def hook_before_flush(ctx):
+    """The bytes that follow the last authentication line in the same read
+    are framed (dataReceived re-entered) only AFTER the switch is complete:
+    connectionAuthenticated() is where the receivers set themselves up (the
+    bus gives the connection its name, the client sends Hello); a message
+    dispatched before it runs meets a half-initialised receiver - which is
+    how "one read" and "two reads" come to differ."""
+    prog = ctx.prog
+    sfi = prog.func('protocol.BasicDBusProtocol.setAuthenticationSucceeded')
+    n = 0
+    for p in Interp(prog, exc_edges=False,
+                    inline=lambda q, d: False).run(sfi):
+        def named(ev, name):
+            return ev[0] == 'call' and (
+                str(ev[1][1] or '').endswith(name) or (
+                    kind(ev[1][2]) in ('attr', 'bound') and
+                    str(ev[1][2][2]).endswith(name)))
+        hook = [i for i, ev in enumerate(p.trace)
+                if named(ev, 'connectionAuthenticated')]
+        flush = [i for i, ev in enumerate(p.trace)
+                 if named(ev, 'dataReceived')]
+        n += 1
+        ctx.ob('C04.D5', sfi.qualname, 'hook-runs', bool(hook),
+               'the switch to binary mode must call connectionAuthenticated',
+               nontrivial=False)
+        if flush:
+            ctx.ob('C04.D5', sfi.qualname, 'receiver-set-up-before-flush',
+                   bool(hook) and hook[0] < flush[0],
+                   'the buffered bytes are framed and dispatched before '
+                   'connectionAuthenticated() ran: a message that arrives in '
+                   'the same read as the end of the handshake reaches a '
+                   'receiver that is not set up yet')
+    if n == 0:
+        raise AnalysisError('setAuthenticationSucceeded has no path')
 
 
 def binary_mode(ctx, fi, data, lay):
